@@ -74,7 +74,7 @@ def _cfg_prefix(tier):
     K = 12 if tier == 'quick' else 40
     out = []
     plan = [('C', 200.0, dict(relative_deg=75.0), 0.0, False), ('D', 20.0, dict(relative_deg=10.0), -1300.0, False),
-            ('C', 200.0, dict(relative_deg=-20.0), 0.0, True)]
+            ('C', 200.0, dict(relative_deg=-20.0), 0.0, True), ('C', 200.0, dict(relative_deg=95.0), 0.0, False)]      # 95 deg: the projectile moves BACKWARDS (last row is not the farthest)
     if tier == 'thorough':
         plan += [('C', 200.0, dict(relative_deg=90.0), 0.0, False), ('D', 20.0, dict(relative_deg=45.0), 5000.0, True),
                  ('A', 100.0, dict(), 0.0, True), ('D', 20.0, dict(relative_deg=0.0), 0.0, False)]
@@ -122,11 +122,17 @@ def c04_prefix(ctx, carrier, step_ft, kw, altitude_ft, extra, which, K):
             rows, err = e.incomplete_trajectory, e
     finally:
         tc.TrajectoryCalc.drag_by_mach = orig
-    try:
-        ref = free.fire(fshot, U.Foot(rng), U.Foot(rec), extra).trajectory
-    except p.RangeError as e:      # cannot happen with the limits disabled
-        ref = None
-    ctx.check('unlimited_run_completes', ref is not None)
+    ref = None
+    if kw.get('relative_deg', 0.0) <= 90.0:
+        try:
+            ref = free.fire(fshot, U.Foot(rng), U.Foot(rec), extra).trajectory
+        except p.RangeError as e:      # cannot happen with the limits disabled
+            ref = None
+    backward = kw.get('relative_deg', 0.0) > 90.0
+    if not backward:
+        ctx.check('unlimited_run_completes', ref is not None)
+    if ref is None:
+        ref = rows          # a projectile that moves backwards never completes without limits: no reference run
     if err is None:
         ctx.reach('completed')
         ctx.check('complete_run_identical', len(rows) == len(ref) and all(tuple(a) == tuple(b) for a, b in zip(rows, ref)))
